@@ -90,6 +90,11 @@ add("C06", "exhaustive enumeration of the (place kind x path x mutation form x c
     "Only the listed forms of mutation are generated; module-level constants are not (they cannot be used in functions today). A wrongly accepted mutation is additionally built and run so that the replay shows the changed value.",
     "DESIGN.md §4 C06")
 
+add("C12", "exhaustive enumeration of the (symbol kind x access site x context x import form) product over generated multi-module projects + rapid-generated project shapes; twin-program oracle",
+    "Every combination of symbol kind (function, constant, module variable, struct type, enum type - each as exported/private twins in a provider module), access site (call, read, type named in 12 kinds of type position, enum variant / annotation / match pattern ...), 30 syntactic contexts for expression sites and 3 import forms, plus 11 field-access forms x 8 places (other module, through a reference, same-module function, method of another type, own method through another value, receiver-name shadowing) and the allowed uses (receiver access in own method, struct literals) is type-checked on every run (450 projects); the random part embeds the cases in 3-4 module projects with the consumer as a middle module. Private => rejected; the twin naming the exported twin => accepted; allowed uses => accepted. Exhaustive over the grid.",
+    "Methods and private types reached without naming them are outside the statement and not asserted. Sites whose exported twin is rejected (assignment to another module's variable) are discarded as not expressible.",
+    "DESIGN.md §4 C12")
+
 def main():
     props = [json.loads(l) for l in open(os.path.join(V, "properties.jsonl"))]
     checks, na = [], []
